@@ -506,4 +506,15 @@ theorem sliceLen_prefix (T len : Nat) (hle : T ≤ len) : sliceLen 0 T 1 len = T
 
 theorem copy_eq (t : Tensor α) : t.copy = t := rfl
 
+theorem numel_eq_zero_of_getD : ∀ (shape : List Nat) (a : Nat), a < shape.length → shape.getD a 0 = 0 →
+    numel shape = 0
+  | [], _, h, _ => by simp at h
+  | s :: ss, 0, _, h0 => by
+    simp only [List.getD_cons_zero] at h0
+    simp [numel, h0]
+  | s :: ss, a + 1, h, h0 => by
+    simp only [List.getD_cons_succ] at h0
+    have := numel_eq_zero_of_getD ss a (by simpa using h) h0
+    simp [numel, this]
+
 end PdsVerif.Model.Tensor
